@@ -44,7 +44,7 @@ ASSUMPTIONS = [
     "simulation adds is the schedule quantifier (sample index k <-> patch index k under every completion order)",
     "per-patch pair counts themselves are taken from the sequential run of the real kernels (C01 is not claimed)",
 ]
-PROBES = ["imap_completion_out_of_order", "landy_szalay", "davis_peebles", "nan_bins", "redshiftdata_with_auto"]
+PROBES = ["imap_completion_out_of_order", "landy_szalay", "davis_peebles", "nan_bins", "redshiftdata_with_auto", "redshiftdata_with_unk_auto"]
 REAL_VS_STUB = dict(
     real="yaw measurements, paircounts/corrfunc/corrdata/redshifts algebra, trees, numpy einsum",
     stub="multiprocessing.Pool (sim.fakemp), _num_processes",
@@ -58,6 +58,8 @@ def gen_cases(tier: str, verif_seed: int, runs: int | None = None) -> list[dict]
     for i in range(ncases):
         prng = Prng(mix(verif_seed, PROP, i))
         scene = scenes.gen_scene(prng, small=True)
+        if prng.chance(1, 2):
+            scene["z_unk"] = scene["z_runk"] = True  # unknown-sample autocorrelation available
         variants = []
         for j in range(nvar):
             variants.append(
@@ -153,6 +155,13 @@ def _workload(case: dict, paths: dict, max_workers, out: dict) -> None:
     out["nz"] = [orc.sampled_state(x) for x in nz]
     nz0 = [yaw.RedshiftData.from_corrfuncs(c) for c in cross]
     out["nz0"] = [orc.sampled_state(x) for x in nz0]
+    if case["scene"].get("z_unk") and case["scene"].get("z_runk"):
+        auto_unk = yaw.autocorrelate(config, cats["unk"], cats["runk"], count_rr=case["count_rr"], **kw)
+        out["auto_unk"] = [orc.corrfunc_state(cf) for cf in auto_unk]
+        nz2 = [yaw.RedshiftData.from_corrfuncs(c, ref_corr=a, unk_corr=u) for c, a, u in zip(cross, auto, auto_unk)]
+        out["nz2"] = [orc.sampled_state(x) for x in nz2]
+        nz3 = [yaw.RedshiftData.from_corrfuncs(c, unk_corr=u) for c, u in zip(cross, auto_unk)]
+        out["nz3"] = [orc.sampled_state(x) for x in nz3]
 
 
 def _cov_problems(samples: np.ndarray, cov: np.ndarray, err: np.ndarray, label: str) -> str | None:
@@ -215,7 +224,18 @@ def evaluate(case: dict, ref: dict, got: dict, cache_ref: dict) -> tuple[dict | 
             nz0_d = cd / np.sqrt(dz**2)
             nz0_s = cs / np.sqrt(dz[None, :] ** 2)
         probes["redshiftdata_with_auto"] = 1
-        for name, d_, s_ in (("nz", nz_d, nz_s), ("nz0", nz0_d, nz0_s)):
+        combos = [("nz", nz_d, nz_s), ("nz0", nz0_d, nz0_s)]
+        if "auto_unk" in ref:
+            try:
+                ud, us = orc.loo_corrfunc(ref["auto_unk"][i])
+            except KeyError:
+                ud = us = None
+            if ud is not None:
+                probes["redshiftdata_with_unk_auto"] = 1
+                with np.errstate(all="ignore"):
+                    combos.append(("nz2", cd / np.sqrt(dz**2 * ad * ud), cs / np.sqrt(dz[None, :] ** 2 * as_ * us)))
+                    combos.append(("nz3", cd / np.sqrt(dz**2 * ud), cs / np.sqrt(dz[None, :] ** 2 * us)))
+        for name, d_, s_ in combos:
             g = got[name][i]
             if not orc.allclose_nan(g["data"], d_) or not orc.allclose_nan(g["samples"], s_):
                 return sig("RedshiftData.from_corrfuncs", "samples_wrong", which=name), f"{name}[{i}] differs from w_sp/sqrt(dz^2 w_ss w_pp) applied to leave-one-out samples", probes
